@@ -1,6 +1,6 @@
 (* C09 driver.
    input  = (fx fs (defs: forest ...) (ann: forest) (ops: E|S|C|V|O ...))
-     node = (T base ext org) | (G node ...) ; base = D | X | N | (O name tv ur)
+     node = (T base ext org namespace) | (G node ...) ; base = D | X | N | (O name tv ur)
      strings are lists of code points
    output = (ok (wf (nissues ...) ((key name takes contents|None) ...)) (step ...))
      step = (heap owned spec val) for the state after 0,1,..,k ops *)
@@ -15,7 +15,7 @@ let sx_base (x : sx) : base = match x with
   | _ -> failwith "base"
 
 let rec sx_node (x : sx) : node = match x with
-  | L [A "T"; b; e; o] -> T { tbase = sx_base b; text = sx_str e; torg = sx_str o }
+  | L [A "T"; b; e; o; ns] -> T { tbase = sx_base b; text = sx_str e; torg = sx_str o; tns = sx_str ns }
   | L (A "G" :: ch) -> G (List.map sx_node ch)
   | _ -> failwith "node"
 
